@@ -120,11 +120,70 @@ def interval_from_conds(path, value_pred, facts=None, unknown=None):
         if not (const(b) is not None and value_pred(a)):
             note(test)
             continue
+        shape = affine_of_value(a, const)
+        if shape is None:
+            # the value goes through arithmetic that is not read (value // 2 <= 2047, (value + 2048) & ~4095, ...)
+            note(test)
+            continue
+        add, shift = shape
+        if shift is not None:
+            # (value + add) >> shift == 0   is   0 <= value + add < 2 ** shift
+            if op == '==' and const(b) == 0 and pol:
+                narrow('>=', -add)
+                narrow('<=', (1 << shift) - 1 - add)
+            else:
+                note(test)
+            continue
+        if add:
+            test = ('cmp', op, a, ('const', const(b) - add))
+            b = test[3]
         if not pol:
             op = {'<': '>=', '>': '<=', '<=': '>', '>=': '<', '==': '!=', '!=': '=='}.get(op, op)
         if not narrow(op, const(b)) and op != '!=':
             note(test)
     return lo, hi
+
+
+# reductions to a width of at least 12 bits: a reduced value within [-2048, 2047] has the low 12 bits of the unreduced one, so an
+# interval on it says the same about what %lo keeps (whether it is the *right* reduction for the decision is R5.2.li-wrap's business)
+WIDE_C_INTS = ('c_int16', 'c_int32', 'c_int64', 'c_short', 'c_int', 'c_long', 'c_longlong', 'c_uint16', 'c_uint32', 'c_uint64')
+
+
+def affine_of_value(x, const):
+    """(add, shift) when x is `value`, `value + add` or `(value + add) >> shift` (shift None when there is none), where value is
+    an evaluation possibly reduced to a width of 12 bits or more (c_int32(e).value, sign_extend(e, 32)) and add / shift are constants;
+    None for anything else that contains the evaluation."""
+    add, shift = 0, None
+    first = True
+    while True:
+        if x[0] == 'res':
+            x = x[3]
+            continue
+        if x[0] == 'mcall' and x[2] == 'eval':
+            return add, shift
+        if x[0] == 'attr' and x[2] == 'value' and x[1][0] == 'call' and x[1][1].split('.')[-1] in WIDE_C_INTS and x[1][1].split('.')[0] in ('ctypes',) + WIDE_C_INTS \
+                and len(x[1][2]) == 1 and not x[1][3]:
+            x = x[1][2][0]
+            if not (x[0] == 'mcall' and x[2] == 'eval') and x[0] != 'res':
+                return None
+            continue
+        if x[0] == 'call' and x[1] == 'sign_extend' and len(x[2]) == 2 and const(x[2][1]) is not None and const(x[2][1]) >= 12 and not x[3]:
+            x = x[2][0]
+            if not (x[0] == 'mcall' and x[2] == 'eval') and x[0] != 'res':
+                return None
+            continue
+        if x[0] == 'bin' and x[1] == '>>' and first and const(x[3]) is not None and 0 <= const(x[3]) <= 64:
+            shift = const(x[3])
+            x = x[2]
+        elif x[0] == 'bin' and x[1] in ('+', '-') and const(x[3]) is not None:
+            add += const(x[3]) if x[1] == '+' else -const(x[3])
+            x = x[2]
+        elif x[0] == 'bin' and x[1] == '+' and const(x[2]) is not None:
+            add += const(x[2])
+            x = x[3]
+        else:
+            return None
+        first = False
 
 
 def accepted_interval(facts, mnemonic, param='imm'):
